@@ -15,5 +15,9 @@ CHECK = {
     "units": {
         "match": {"pkg": "middleware/blocklist", "run": "TestVerifC18Match", "harness": _H,
                   "budget_s": {"quick": 60, "thorough": 600}},
+        "persist": {"pkg": "middleware/blocklist", "run": "TestVerifC18Persist", "harness": _H, "rewrite": _RW,
+                    "gomaxprocs": 1, "budget_s": {"quick": 45, "thorough": 420}},
+        "crash": {"pkg": "middleware/blocklist", "run": "TestVerifC18Crash", "harness": _H, "rewrite": _RW,
+                  "budget_s": {"quick": 45, "thorough": 300}},
     },
 }
